@@ -37,7 +37,7 @@ import alias_failops as fo
 
 base = ar.base
 
-SPAN_TYPES = ['list', 'list', 'tuple', 'ndarray', 'index']
+SPAN_TYPES = ['list', 'list', 'tuple', 'ndarray', 'index', 'list-np.str_']
 PLAIN_LABELS = ['p0', 'p1', 'p2', 'p3', 'p4', 'x_1', '2001', 'Q1']
 SUB_ALIAS_POOL = ['out', 'o2', 'gov', 'spend']
 CONTAINER_VARS = ['Y', 'C', 'G', 'H']
@@ -55,6 +55,8 @@ def mk_span(sp):
         return tuple(labels)
     if kind == 'ndarray':
         return np.array(labels)
+    if kind == 'list-np.str_':
+        return list(np.array(labels))          # a list whose elements are numpy.str_
     import pandas as pd
     return pd.Index(labels)
 
@@ -134,13 +136,13 @@ def gen_label_case(rng):
         case['sub_m'] = sub_items
         sub_m = dict(map(tuple, sub_items))
     case['variables'] = variables
-    items, _ = ar.route_alias_map(rng, variables, undef_p=0.3)
+    items, _ = ar.route_alias_map(rng, variables, self_p=0.25, undef_p=0.3)
     m = dict(map(tuple, items))
     case['m'] = items
     case['pref'] = ar.pick_pref(rng, m, variables) if kind != 'container' or rng.random() < 0.5 else []
     labels = gen_labels(rng, m, variables, extra=list(sub_m) + (['Y', 'G'] if sub_m else []))
     n = len(labels)
-    stypes = ['list', 'list', 'tuple'] if kind == 'linker' else SPAN_TYPES
+    stypes = ['list', 'list', 'tuple', 'list-np.str_'] if kind == 'linker' else SPAN_TYPES
     case['span'] = {'type': rng.choice(stypes), 'labels': labels}
     case['strict'] = kind != 'linker' and rng.random() < 0.15
     case['init'] = {v: [100 * (i + 1) + j for j in range(n)] for i, v in enumerate(variables)}
@@ -418,6 +420,8 @@ def show(r):
         return f'{np.asarray(raw).tolist()}'
     if raw is None:
         return 'ok'
+    if hasattr(raw, 'columns'):
+        return f'a frame of shape {raw.shape}, index {[ar.plain_text(x) for x in raw.index]}, columns {[ar.plain_text(x) for x in raw.columns]}'
     return 'ok: ' + base().short(r[1])
 
 
